@@ -227,12 +227,137 @@ func (s *retScenario) cuts() *Cuts {
 			cuts.addEdges(t)
 		}
 	}
+	// a flag carried as a member of a returned struct (`return position{}, nil` / `p := position{found: true}; …; return p, nil`):
+	// the member is a constant on this return, and so are the tests of it in the caller
+	for i, v := range s.vals {
+		if v == nil || v == ssa.Value(errMarker) {
+			continue
+		}
+		st, isSt := v.Type().Underlying().(*types.Struct)
+		if !isSt {
+			continue
+		}
+		ex := extractOf(s.call, i)
+		if ex == nil && len(s.vals) == 1 {
+			ex = s.call
+		}
+		if ex == nil {
+			continue
+		}
+		for j := 0; j < st.NumFields(); j++ {
+			if !isBoolType(st.Field(j).Type()) {
+				continue
+			}
+			truth, known := memberConstOf(v, j)
+			if !known {
+				continue
+			}
+			for _, rd := range memberReads(s.reg, ex, j) {
+				assumed[rd] = truth
+				t, fl := boolEdges(rd)
+				if truth {
+					cuts.addEdges(fl)
+				} else {
+					cuts.addEdges(t)
+				}
+			}
+		}
+	}
 	for _, f := range s.reg.Funcs() {
 		if f != helper {
 			cuts.closeBoolPhisWith(f, assumed)
 		}
 	}
 	return liftBoolHelpersExcept(s.reg, cuts, assumed, helper)
+}
+
+// memberConstOf: the boolean member j of the struct value v is a constant: v is the zero literal, or a load of
+// a local literal whose member j is stored once with a constant (or never: zero)
+func memberConstOf(v ssa.Value, j int) (truth, known bool) {
+	v = stripConv(v)
+	if k, ok := v.(*ssa.Const); ok && k.Value == nil {
+		return false, true
+	}
+	u, ok := v.(*ssa.UnOp)
+	if !ok || u.Op != token.MUL {
+		return false, false
+	}
+	al, ok := u.X.(*ssa.Alloc)
+	if !ok {
+		return false, false
+	}
+	val, n, _ := litField(al, j)
+	// the address of OTHER members may be handed out (Scan(&p.num, &p.hash)); member j itself must only be stored
+	for _, ref := range *al.Referrers() {
+		if fa, isFA := ref.(*ssa.FieldAddr); isFA && fa.Field == j {
+			for _, r2 := range *fa.Referrers() {
+				switch x := r2.(type) {
+				case *ssa.Store:
+					if x.Addr != ssa.Value(fa) {
+						return false, false
+					}
+				case *ssa.UnOp, *ssa.DebugRef:
+				default:
+					return false, false
+				}
+			}
+		}
+		if st, isSt := ref.(*ssa.Store); isSt && st.Addr == ssa.Value(al) {
+			// the literal stored whole: position{hash: …, found: true} built in a temporary
+			if k, isK := st.Val.(*ssa.Const); isK && k.Value == nil {
+				continue
+			}
+			if tu, isU := stripConv(st.Val).(*ssa.UnOp); isU && tu.Op == token.MUL {
+				if tal, isAl := tu.X.(*ssa.Alloc); isAl {
+					return memberConstOf(tu, j)
+					_ = tal
+				}
+			}
+			return false, false
+		}
+	}
+	switch {
+	case n == 0:
+		return false, true
+	case n == 1:
+		if k, ok := val.(*ssa.Const); ok && k.Value != nil {
+			return k.Value.String() == "true", true
+		}
+	}
+	return false, false
+}
+
+// memberReads: the values in the region that read member j of the struct value sv (directly, or through the
+// local it is spilled to)
+func memberReads(reg *Region, sv ssa.Value, j int) []ssa.Value {
+	var out []ssa.Value
+	cells := map[ssa.Value]bool{}
+	for _, ref := range *sv.Referrers() {
+		switch x := ref.(type) {
+		case *ssa.Field:
+			if x.Field == j {
+				out = append(out, x)
+			}
+		case *ssa.Store:
+			if x.Val == sv {
+				if al, ok := x.Addr.(*ssa.Alloc); ok && cellValue(al) == sv {
+					cells[al] = true
+				}
+			}
+		}
+	}
+	for al := range cells {
+		for _, ref := range *al.Referrers() {
+			if fa, ok := ref.(*ssa.FieldAddr); ok && fa.Field == j {
+				for _, r2 := range *fa.Referrers() {
+					if u, isU := r2.(*ssa.UnOp); isU && u.Op == token.MUL {
+						out = append(out, u)
+					}
+				}
+			}
+		}
+	}
+	return out
 }
 
 func cmpInts(op token.Token, a, b int64) (bool, bool) {
